@@ -13,7 +13,7 @@ pub struct C06;
 pub static P: C06 = C06;
 
 #[derive(Clone, Copy, PartialEq, Eq, Debug)]
-enum T {
+pub(crate) enum T {
     Bool,
     I8,
     U8,
@@ -26,12 +26,12 @@ enum T {
     F32,
     F64,
 }
-use T::*;
+pub(crate) use T::*;
 
-const ALL: [T; 11] = [Bool, I8, U8, I16, U16, I32, U32, I64, U64, F32, F64];
+pub(crate) const ALL: [T; 11] = [Bool, I8, U8, I16, U16, I32, U32, I64, U64, F32, F64];
 
 impl T {
-    fn name(self) -> &'static str {
+    pub(crate) fn name(self) -> &'static str {
         match self {
             Bool => "bool",
             I8 => "i8",
@@ -46,14 +46,14 @@ impl T {
             F64 => "f64",
         }
     }
-    fn parse(s: &str) -> Option<T> {
+    pub(crate) fn parse(s: &str) -> Option<T> {
         ALL.iter().copied().find(|t| t.name() == s)
     }
-    fn is_float(self) -> bool {
+    pub(crate) fn is_float(self) -> bool {
         matches!(self, F32 | F64)
     }
     /// value range of the integer types (Boolean: 0..1)
-    fn range(self) -> (i128, i128) {
+    pub(crate) fn range(self) -> (i128, i128) {
         match self {
             Bool => (0, 1),
             I8 => (i8::MIN as i128, i8::MAX as i128),
@@ -67,7 +67,7 @@ impl T {
             F32 | F64 => (0, 0),
         }
     }
-    fn type_id(self) -> VariantTypeId {
+    pub(crate) fn type_id(self) -> VariantTypeId {
         match self {
             Bool => VariantTypeId::Boolean,
             I8 => VariantTypeId::SByte,
@@ -85,18 +85,18 @@ impl T {
 }
 
 #[derive(Clone, Copy, Debug)]
-enum V {
+pub(crate) enum V {
     I(i128),
     F32(f32),
     F64(f64),
 }
 
-fn in_range(t: T, x: i128) -> bool {
+pub(crate) fn in_range(t: T, x: i128) -> bool {
     let (lo, hi) = t.range();
     lo <= x && x <= hi
 }
 
-fn parse_val(t: T, s: &str) -> Option<V> {
+pub(crate) fn parse_val(t: T, s: &str) -> Option<V> {
     match t {
         F32 => {
             let h = s.strip_prefix('g')?;
@@ -123,7 +123,7 @@ fn parse_val(t: T, s: &str) -> Option<V> {
     }
 }
 
-fn to_variant(t: T, v: V) -> Variant {
+pub(crate) fn to_variant(t: T, v: V) -> Variant {
     match (t, v) {
         (Bool, V::I(x)) => Variant::Boolean(x == 1),
         (I8, V::I(x)) => Variant::SByte(x as i8),
@@ -141,7 +141,7 @@ fn to_variant(t: T, v: V) -> Variant {
 }
 
 /// None = Empty; Some(Err) = a non-numeric variant
-fn from_variant(v: &Variant) -> Option<Result<(T, V), ()>> {
+pub(crate) fn from_variant(v: &Variant) -> Option<Result<(T, V), ()>> {
     Some(Ok(match v {
         Variant::Empty => return None,
         Variant::Boolean(b) => (Bool, V::I(*b as i128)),
@@ -159,7 +159,7 @@ fn from_variant(v: &Variant) -> Option<Result<(T, V), ()>> {
     }))
 }
 
-fn show_val(v: V) -> String {
+pub(crate) fn show_val(v: V) -> String {
     match v {
         V::I(x) => format!("{}", x),
         V::F32(x) => {
@@ -179,7 +179,7 @@ fn show_val(v: V) -> String {
     }
 }
 
-fn show_op_val(v: V) -> String {
+pub(crate) fn show_op_val(v: V) -> String {
     match v {
         V::I(x) => format!("{}", x),
         V::F32(x) => format!("g{:08x}", x.to_bits()),
@@ -643,7 +643,7 @@ fn gen_f32(rng: &mut Rng) -> f32 {
     }
 }
 
-fn gen_val(rng: &mut Rng, t: T) -> V {
+pub(crate) fn gen_val(rng: &mut Rng, t: T) -> V {
     match t {
         F32 => V::F32(gen_f32(rng)),
         F64 => V::F64(gen_f64(rng)),
